@@ -26,6 +26,7 @@ RULE = (
     "advancing virtual time past every pending delay runs no action and dequeues no event. Non-trivial = a sequence "
     "containing stop/start/send after a terminal status or a stop with a live timer, service, delayed send or actor; "
     "distinct = distinct sequences."
+    ' Also: Lifecycle calls made from inside a macrostep: STOPIN / STOPIN0 / STOPIN2 are transitions whose action calls stop() on its own interpreter (on the way into a state owning a timer and a service; targetless; followed in the same list by a delayed raise and a spawn).'
 )
 ASSUMPTIONS = [
     "calls made while a macrostep is in flight are generated through slow actions only (virtual time); bytecode-level "
